@@ -1,4 +1,4 @@
-"""Rule B-R7: an intermediate without guard bits must not feed a guarded computation.
+"""Rule B-R9: an intermediate without guard bits must not feed a guarded computation.
 
 Kernels that need an accurate final rounding evaluate their intermediates at
 `prec + k` (k > 0 guard bits).  If, in the same region, one inexact
@@ -131,7 +131,7 @@ class GuardScan(object):
                         defs.pop(n.id, None)
 
 
-def check_guard_bits(run, ix, rule='B-R7', modules=None):
+def check_guard_bits(run, ix, rule='B-R9', modules=None):
     from .report import Finding
     total_pairs = 0
     nfunc = 0
